@@ -449,4 +449,53 @@ theorem inv_run (hinj : ∀ h₁ h₂ : Header E, Hh h₁ = Hh h₂ → h₁ = h
 
 end Inv
 
+/-! ### Ties to the source text (rs2lean) -/
+
+/-- numbering of `OperationError` used by the regenerated definitions -/
+def errCode : OpErr → Nat
+  | .unsupportedVersion => 0 | .missingSignature => 1 | .signatureMismatch => 2 | .seqNumMismatch => 3
+  | .inconsistentPayloadInfo => 4 | .missingPayloadHash => 5 | .payloadMismatch => 6 | .tooManyAuthors => 7
+  | .seqNumNonIncremental => 8 | .backlinkMissing => 9 | .backlinkMismatch => 10
+
+def codeOf : Except OpErr Unit → Except Nat Unit
+  | .ok () => .ok ()
+  | .error e => .error (errCode e)
+
+/-- what `validate_prunable_backlink` reads of the stored latest header -/
+def pastTriple (r : Row) : Nat × Nat × Nat := (r.author, r.seq, r.hid)
+
+/-- a row carrying exactly the triple (the other columns are not read by `validate_backlink`) -/
+def rowOfTriple (p : Nat × Nat × Nat) : Row :=
+  { id := 0, author := p.1, log := 0, seq := p.2.1, hid := p.2.2, backlink := none, prune := false,
+    payloadSize := 0, hasBody := false }
+
+theorem validateBacklink_triple {E : Type} (r : Row) (h : Header E) :
+    validateBacklink (rowOfTriple (pastTriple r)) h = validateBacklink r h := rfl
+
+/-- The term `rs2lean` generates from the current body of `validate_prunable_backlink`
+    (p2panda-core/src/prune.rs), copied here once; the property files require the freshly
+    regenerated definition to be this term (`rfl`) and `vpb_eq_spec` ties it to the model. -/
+def validatePrunableSpec (past : Option (Nat × Nat × Nat)) (hseq hkey : Nat) (pruneFlag : Bool)
+    (validateBacklink : Nat × Nat × Nat → Except Nat Unit) : Except Nat Unit :=
+  (if (hseq > 0) then (if (¬ (pruneFlag = true)) then (match past with | (some past_header_1) => (validateBacklink past_header_1) | none => (.error 9)) else (match past with | (some past_header_2) => (if (past_header_2.1 ≠ hkey) then (.error 7) else (match past with | (some past_header_3) => (if (hseq ≤ past_header_3.2.1) then (.error 8) else (.ok ())) | _ => (.ok ()))) | _ => (match past with | (some past_header_3) => (if (hseq ≤ past_header_3.2.1) then (.error 8) else (.ok ())) | _ => (.ok ())))) else (match past with | (some past_header_4) => (validateBacklink past_header_4) | none => (.ok ())))
+
+/-- The model's repaired `validatePrunableBacklink` is the regenerated source term. -/
+theorem vpb_eq_spec {E : Type} (past : Option Row) (h : Header E) (prune : Bool) :
+    codeOf (validatePrunableBacklink past h prune) =
+      validatePrunableSpec (past.map pastTriple) h.seq h.key prune
+        (fun p => codeOf (validateBacklink (rowOfTriple p) h)) := by
+  unfold validatePrunableBacklink validatePrunableSpec
+  cases past with
+  | none =>
+    by_cases hq : h.seq > 0 <;> cases prune <;> simp [hq, codeOf, errCode]
+  | some r =>
+    simp only [Option.map_some, validateBacklink_triple]
+    by_cases hq : h.seq > 0
+    · cases prune
+      · simp [hq]
+      · by_cases ha : r.author = h.key
+        · by_cases hle : h.seq ≤ r.seq <;> simp [hq, ha, hle, codeOf, errCode, pastTriple]
+        · simp [hq, ha, codeOf, errCode, pastTriple]
+    · simp [hq]
+
 end P2.LogStoreLemmas
